@@ -74,6 +74,9 @@ def run(tier):
     # hunk headers are exempt from --max-line-length: a long code fragment arrives whole (two-way and combined hunks)
     plans.append(stream.Plan("rs/longfrag+maxlen", covcc + rnd.sample(cov, min(per, len(cov))),
                              ["--max-line-length", "100"], None, skin={"frag": "long"}))
+    # a configured --file-transformation (one that happens to change none of these names): labels, mode and binary notes stay
+    plans.append(stream.Plan("rs/file-transformation", rnd.sample(covmode, min(1500 if tier == "quick" else len(covmode), len(covmode))),
+                             ["--file-transformation", "s,NOSUCHNAMEQQ,x,"], None, skin={}))
     res = stream.execute_plans(plans)
     failed, n = stream.validate_runs([x[4] for x in res])
     log(f"[{PID}] replayed {n} runs, {len(failed)} rejected by Obs_Stream")
